@@ -53,20 +53,27 @@ def dnfHolds (isAsync : Bool) (o : Oracle) (kw : Kwargs) (groups : List (List Co
 def totalOn (isAsync : Bool) (o : Oracle) (kw : Kwargs) (cs : List Contract) : Prop :=
   ∀ c ∈ cs, condTruthy isAsync o kw c = true ∨ condFalsy isAsync o kw c = true
 
-/-- first falsy condition of a group -/
-def firstFalsy (isAsync : Bool) (o : Oracle) (kw : Kwargs) : List Contract → Option Contract
-  | [] => none
-  | c :: cs => if condTruthy isAsync o kw c then firstFalsy isAsync o kw cs else some c
+/-- first condition of a group that does not answer truthy -/
+def firstFalsy (isAsync : Bool) (o : Oracle) (kw : Kwargs) (g : List Contract) : Option Contract :=
+  g.find? (fun c => !condTruthy isAsync o kw c)
 
-/-- Building the error of `c` neither raises nor yields a falsy exception object;
-`errorOf` is what is built. -/
-def errorOf (o : Oracle) (c : Contract) : Option Raised :=
+/-- What building the error of `c` yields when nothing goes wrong in user code:
+the contract's configured error (C09). `none` when the factory / message
+generation raises, the factory returns a non-exception, or it asks for a name the call lacks. -/
+def errorOf (o : Oracle) (kw : Kwargs) (c : Contract) : Option Raised :=
   match c.err with
   | .none => match o.msg c.id with | .ok => some (.viol c.id true) | _ => none
-  | .fac _ => match o.fac c.id with | .exc e => some (.user e) | _ => none
+  | .fac args =>
+      if (missingNames args kw).isEmpty then
+        match o.fac c.id with | .exc e => some (.user e) | _ => none
+      else none
   | .cls true t => match o.msg c.id with | .ok => some (.viol c.id t) | _ => none
   | .inst e => some (.user e)
   | _ => none
+
+/-- the resolved keyword arguments of a call -/
+def resolved (ck : Checker) (call : Call) : Kwargs :=
+  kwargsFromCall ck.paramNames ck.kwdefaults call.args call.kwargs
 
 /-- The capture can be evaluated for this call and returns a value. -/
 def captureTotal (isAsync : Bool) (o : Oracle) (kw : Kwargs) (s : Snapshot) : Bool :=
